@@ -1,7 +1,147 @@
-(* EntryCsv.v — entry points of this area; returns None for codes it does not own *)
-From RBQL Require Import Base Sx.
+(* EntryCsv.v — entry points of the CSV line-dialect area (codes 100-199); None for codes not owned.
+   100 smart_split        L [pol; dlm; preserve; L lines]        -> L [ L [L fields; warn; L tags] per line ]   (tags: taken-as-quoted, quoted policies)
+   101 split_quoted_general (no fast path)  L [dlm; line; preserve] -> L [L fields; warn]
+   110 quote_field        L [lang; rfc; dlm; field]              -> str
+   120 write_table        L [lang; pol; dlm; enc; opt header; rows] -> L [L lines; opt L [idx; errkind]; none; delim; opt expected read-back; exactly representable]
+                          (read-back is given when no write fails and the table is representable up to CR -> LF in quoted_rfc fields)
+   130 representable      L [pol; dlm; fields]                   -> L [representable; line_ok; good_dlm]
+   131 table_representable L [pol; dlm; enc; rows of fields]     -> bool
+   140 line round trip    L [pol; dlm; fields]                   -> L [line; L fields; warn]  (smart_split of join_line)
+   policies: 0 simple, 1 quoted, 2 quoted_rfc, 3 whitespace, 4 monocolumn; lang: 0 py, 1 js
+   cells: L [A 0; str] | L [A 1] (None) | L [A 2; Z] | L [A 3; L cells] *)
+From RBQL Require Import Base Sx Csv CsvWriter CsvSpec.
+
+Definition pol_of_sx (x : sx) : option policy :=
+  match x with
+  | A 0%N => Some Simple | A 1%N => Some Quoted | A 2%N => Some QuotedRfc
+  | A 3%N => Some Whitespace | A 4%N => Some Monocolumn
+  | _ => None
+  end.
+Definition lang_of_sx (x : sx) : option lang :=
+  match x with A 0%N => Some LPy | A 1%N => Some LJs | _ => None end.
+
+Fixpoint cell_of_sx (x : sx) : option cell :=
+  match x with
+  | L [A 0%N; s] => option_map CStr (str_of_sx s)
+  | L [A 1%N] => Some CNone
+  | L [A 2%N; z] => option_map CInt (Z_of_sx z)
+  | L [A 3%N; L l] =>
+      option_map CList
+        ((fix go (l : list sx) : option (list cell) :=
+            match l with
+            | [] => Some []
+            | h :: t => match cell_of_sx h, go t with Some a, Some r => Some (a :: r) | _, _ => None end
+            end) l)
+  | _ => None
+  end.
+
+Definition sx_of_werr (e : werr) : sx :=
+  match e with ErrHeaderLen => A 1%N | ErrMono => A 2%N | ErrOther => A 3%N end.
+
+Definition ep_smart_split (x : sx) : sx :=
+  match x with
+  | L [p; d; pr; ls] =>
+      match pol_of_sx p, str_of_sx d, bool_of_sx pr, list_of_sx str_of_sx ls with
+      | Some pol, Some dlm, Some preserve, Some lines =>
+          sx_of_list (fun line =>
+            let '(fs, w) := smart_split pol dlm preserve line in
+            let tags := match pol with
+                        | Quoted | QuotedRfc => map fst (fst (split_quoted_tagged dlm preserve line))
+                        | _ => []
+                        end in
+            L [sx_of_list sx_of_str fs; sx_of_bool w; sx_of_list sx_of_bool tags]) lines
+      | _, _, _, _ => ERR
+      end
+  | _ => ERR
+  end.
+
+Definition ep_split_general (x : sx) : sx :=
+  match x with
+  | L [d; l; pr] =>
+      match str_of_sx d, str_of_sx l, bool_of_sx pr with
+      | Some dlm, Some line, Some preserve =>
+          let '(fs, w) := split_quoted_general dlm preserve line in L [sx_of_list sx_of_str fs; sx_of_bool w]
+      | _, _, _ => ERR
+      end
+  | _ => ERR
+  end.
+
+Definition ep_quote_field (x : sx) : sx :=
+  match x with
+  | L [fl; rfc; d; f] =>
+      match lang_of_sx fl, bool_of_sx rfc, str_of_sx d, str_of_sx f with
+      | Some fl', Some rfc', Some dlm, Some fld => sx_of_str (quote_field fl' rfc' dlm fld)
+      | _, _, _, _ => ERR
+      end
+  | _ => ERR
+  end.
+
+Definition ep_write_table (x : sx) : sx :=
+  match x with
+  | L [fl; p; d; A enc; h; rows] =>
+      match lang_of_sx fl, pol_of_sx p, str_of_sx d,
+            option_of_sx (list_of_sx cell_of_sx) h, list_of_sx (list_of_sx cell_of_sx) rows with
+      | Some fl', Some pol, Some dlm, Some header, Some rs =>
+          let '(lines, e, nf, df) := write_table fl' pol dlm header rs in
+          let all_rows := match header with Some hd => hd :: rs | None => rs end in
+          let norm := map (fun r => fst (normalize_fields dlm r)) all_rows in
+          let readback :=
+            match e with
+            | Some _ => None
+            | None => if good_dlm pol dlm && table_ok pol dlm enc norm then Some (map (map nl_norm) norm) else None
+            end in
+          L [sx_of_list sx_of_str lines;
+             sx_of_option (fun ie => L [sx_of_nat (fst ie); sx_of_werr (snd ie)]) e;
+             sx_of_bool nf; sx_of_bool df;
+             sx_of_option (sx_of_list (sx_of_list sx_of_str)) readback;
+             sx_of_bool (good_dlm pol dlm && table_representable pol dlm enc norm)]
+      | _, _, _, _, _ => ERR
+      end
+  | _ => ERR
+  end.
+
+Definition ep_representable (x : sx) : sx :=
+  match x with
+  | L [p; d; fs] =>
+      match pol_of_sx p, str_of_sx d, list_of_sx str_of_sx fs with
+      | Some pol, Some dlm, Some fields =>
+          L [sx_of_bool (representable pol dlm fields); sx_of_bool (line_ok pol dlm fields); sx_of_bool (good_dlm pol dlm)]
+      | _, _, _ => ERR
+      end
+  | _ => ERR
+  end.
+
+Definition ep_table_representable (x : sx) : sx :=
+  match x with
+  | L [p; d; A enc; rows] =>
+      match pol_of_sx p, str_of_sx d, list_of_sx (list_of_sx str_of_sx) rows with
+      | Some pol, Some dlm, Some rs => sx_of_bool (good_dlm pol dlm && table_representable pol dlm enc rs)
+      | _, _, _ => ERR
+      end
+  | _ => ERR
+  end.
+
+Definition ep_line_roundtrip (x : sx) : sx :=
+  match x with
+  | L [p; d; fs] =>
+      match pol_of_sx p, str_of_sx d, list_of_sx str_of_sx fs with
+      | Some pol, Some dlm, Some fields =>
+          let line := join_line pol dlm fields in
+          let '(back, w) := smart_split pol dlm false line in
+          L [sx_of_str line; sx_of_list sx_of_str back; sx_of_bool w]
+      | _, _, _ => ERR
+      end
+  | _ => ERR
+  end.
 
 Definition dispatch_csv (code : N) (x : sx) : option sx :=
   match code with
+  | 100%N => Some (ep_smart_split x)
+  | 101%N => Some (ep_split_general x)
+  | 110%N => Some (ep_quote_field x)
+  | 120%N => Some (ep_write_table x)
+  | 130%N => Some (ep_representable x)
+  | 131%N => Some (ep_table_representable x)
+  | 140%N => Some (ep_line_roundtrip x)
   | _ => None
   end.
